@@ -161,9 +161,10 @@ def integrate_spin(expr: Expr, target_idx: str, target_spin: str) -> Expr:
                         idx_map[spin].add(idx)
                 if not valid:
                     continue
+                # an index that occurs twice on the object can not have
+                # two different spins: the block vanishes
                 if idx_map["a"] & idx_map["b"]:
-                    raise ValueError("Found invalid allowed spin block "
-                                     f"{block} for {obj}.")
+                    continue
                 obj_spin_idx_maps.append(idx_map)
             if not obj_spin_idx_maps:
                 term_vanishes = True
@@ -305,11 +306,13 @@ def allowed_spin_blocks(expr: Expr, target_idx: str) -> tuple[str]:
             for block in allowed_object_blocks:
                 idx_map = {}
                 for spin, idx in zip(block, obj_indices):
+                    # an index that occurs twice on the object can not
+                    # have two different spins: the block vanishes
                     if idx in idx_map and idx_map[idx] != spin:
-                        raise ValueError("Found invalid allowed spin block "
-                                         f"{block} for {obj}.")
+                        break
                     idx_map[idx] = spin
-                object_idx_maps.append(idx_map)
+                else:
+                    object_idx_maps.append(idx_map)
             term_idx_maps.append((object_idx_maps, n_target))
         # - sort the allowed_tensor_blocks such that tensors with a high
         #   number of target indices are preferred
